@@ -135,7 +135,8 @@ def run(ctx):
         mode = 'async' if i % 3 != 2 else 'sync'
         cases.append({'mode': mode, 'table': gen_table(ctx.rng), 'ops': gen_ops(ctx.rng, manual), 'checked': ctx.rng.random() < 0.6,
                       'manual_exit': manual})
-    cases += [{'mode': 'coroutine', 'spec': s} for s in ('ok', 'bad', 'raise')]
+    cases += [{'mode': 'coroutine', 'spec': s, 'ann': a} for s in ('ok', 'bad', 'raise')
+              for a in ('int', 'absent', 'NoReturn', 'Never', 'Optional[int]', 'Coroutine[int]', 'Coroutine[NoReturn]')]
     rows, index = [], []
     for lo in range(0, len(cases), 300):
         part = cases[lo:lo + 300]
@@ -143,12 +144,16 @@ def run(ctx):
         for case, o in zip(part, obs):
             if case['mode'] == 'coroutine':
                 ctx.case(case, True)
-                ok = o['kind_same'] and ((case['spec'] == 'ok' and o['orig'] == o['deco'] == ['ok', 7]) or
-                                         (case['spec'] == 'raise' and o['orig'] == o['deco'] == ['raise', 'KeyError']) or
-                                         (case['spec'] == 'bad' and o['orig'] == ['ok', 'bad'] and o['deco'] == ['raise', 'BeartypeCallHintReturnViolation']))
+                ann = case['ann']
+                conforms = {'ok': ann in ('int', 'absent', 'Optional[int]', 'Coroutine[int]'), 'bad': ann == 'absent', 'raise': True}[case['spec']]
+                # the body runs exactly once and to the end either way; a conforming result (or the body's own exception) comes
+                # back unchanged, anything else is a return violation raised after the body finished
+                ok = (o['kind_same'] and o['orig_log'] == o['deco_log'] == ['start', 'resumed'] and
+                      (o['deco'] == o['orig'] if conforms else o['deco'] == ['raise', 'BeartypeCallHintReturnViolation']))
                 if not ok:
                     failures += 1
-                    ctx.report({'clause': 'coroutine', 'spec': case['spec']}, {'case': case, 'observed': o}, 'a decorated coroutine differs from the original')
+                    ctx.report({'clause': 'coroutine', 'spec': case['spec'], 'ann': ann}, {'case': case, 'observed': o},
+                               'a decorated coroutine differs from the original')
                 continue
             ops = case['ops']
             ctx.case([case['mode'], case['table'], ops, case['checked']], len(ops) >= 3 and any(x[0] in ('throw', 'close') for x in ops),
